@@ -856,6 +856,7 @@ pub fn memory_stratum(
     threads: usize,
     cov: &mut std::collections::BTreeMap<String, Value>,
     assume: &mut Vec<String>,
+    xs: &mut crate::framework::ExtraStats,
 ) -> Vec<(Failure, Value)> {
     let mut fails: Vec<(Failure, Value)> = Vec::new();
     let exe = std::env::current_exe().unwrap_or_default();
@@ -953,6 +954,9 @@ pub fn memory_stratum(
                 }
             }
         }
+        xs.evaluations += done;
+        xs.distinct_nontrivial += distinct.len() as u64;
+        *xs.counters.entry(format!("memory_stratum_{}_heap_drops_with_survivors", name)).or_insert(0) += drops;
         cov.insert(
             format!("memory_stratum_{}", name),
             json!({"histories": done, "distinct_nontrivial": distinct.len(), "heap_drops_with_survivors": drops, "stale_handle_clone_or_drop_ops": stale, "worker_processes": w}),
